@@ -71,6 +71,16 @@ CHECKS = {
         note="pika refuses interrupt() while the target disabled interruption (counts as not delivered); D12 (shared-priority handles "
              "not joinable) is a listed known finding; D9 fixed.",
         ref="DESIGN.md section 2, C13"),
+    "C14": dict(
+        technique="runtime monitoring: model-based sequential histories (reference model of states/source counts) and concurrent rounds "
+                  "with winner count, per-callback run counters, 'alive' word cleared after the destructor, executing flag; "
+                  "TSan/ASan as extra oracles",
+        text="Exploration: tens of thousands of random copy/move/assign/swap/destroy/request_stop histories compared query by query with a "
+             "30-line model (stop_possible/stop_requested/request_stop result), and rounds with racing request_stop callers and callbacks "
+             "registered/destroyed from tasks and OS threads, incl. destroying other callbacks or itself, or registering new ones, from "
+             "inside a callback: exactly one winner, each live callback exactly once, never after (or across) its destructor.",
+        note="D4, D6, D11, D15 were found by this check and fixed (known_findings.json); interleavings sampled.",
+        ref="DESIGN.md section 2, C14"),
 }
 
 NOT_YET = "not claimed yet: harness under construction in this session (see DESIGN.md section 2)"
